@@ -231,9 +231,21 @@ pub fn check_program(prog: &Program, seed: u64, thorough: bool, small: bool, rep
 }
 
 pub fn run(p: &Params, rep: &mut Report) {
+    if p.shard == 7 {
+        // operand and class counts beyond 2^10 (and, for one term, beyond 2^16)
+        for n in if p.thorough { vec![1100u32, 2100, 4200] } else { vec![1100u32] } {
+            super::ladder::wide_union(rep, "C19", n, p.seed);
+        }
+    }
     if p.shard == 4 {
         let n = if p.thorough { super::scale::N_THOROUGH } else { super::scale::N_QUICK };
         super::scale::c19(rep, n, p.seed);
+    }
+    if p.shard == 6 {
+        for centre in [256, 65536] {
+            super::ladder::traversal_gap(rep, super::ladder::Trav::Iter, centre, p.seed);
+            super::ladder::traversal_gap(rep, super::ladder::Trav::Compile, centre, p.seed);
+        }
     }
     let stride = 1;
     for_tiny_programs(p, rep, stride, p.size(150, 3000), |prog, seed, rep| check_program(prog, seed, p.thorough, true, rep));
